@@ -15,6 +15,8 @@ class ToTZ(Op):
     prop = PROP
     name = "tz"
     shard = None
+    sibling = T.tp_sibling(1)
+    sibling_rate = 0.12
 
     def gen(self, rng, tier, boost):
         n = 2500 * boost if tier == "quick" else 6000 * boost
